@@ -192,4 +192,203 @@ theorem lexToks_num (c : Nat) (cs t : Str) (n : NumTok)
   simp only [lexToks, List.length_cons, lexToksF, hws, hstart, hlex, hlen, Bool.false_eq_true, if_false, if_true]
   rw [lexToks_of_fuel _ t (by omega)]; rfl
 
+/-! ### integer and real literals -/
+
+theorem decDigits_ne_nil (f n : Nat) : decDigits (f + 1) n ≠ [] := by
+  unfold decDigits; split <;> simp
+
+theorem intStr_cons (v : Int) : ∃ c cs, intStr v = c :: cs ∧ (isDigit c || c == 43 || c == 45 || c == 46) = true ∧
+    isWs c = false := by
+  unfold intStr
+  split
+  · exact ⟨45, _, rfl, by decide, by decide⟩
+  · have hne := decDigits_ne_nil v.natAbs v.natAbs
+    have hd := decDigits_digits (v.natAbs + 1) v.natAbs (by omega)
+    unfold natStr
+    cases hx : decDigits (v.natAbs + 1) v.natAbs with
+    | nil => exact absurd hx hne
+    | cons c cs =>
+      rw [hx] at hd
+      simp only [List.all_cons, Bool.and_eq_true] at hd
+      refine ⟨c, cs, rfl, by simp [hd.1], ?_⟩
+      have := hd.1; revert this; unfold isDigit isWs
+      simp only [Bool.and_eq_true, decide_eq_true_eq, Bool.or_eq_false_iff, beq_eq_false_iff_ne]
+      intro h; omega
+
+theorem lexToks_int (v : Int) (t : Str) (ht : Closed t) :
+    lexToks (intStr v ++ t) = (lexToks t).map (Tok.num (.int v) :: ·) := by
+  obtain ⟨c, cs, e, hs, hw⟩ := intStr_cons v
+  have hl := lexNumber_intStr v t (closed_delim t ht)
+  rw [e] at hl ⊢
+  exact lexToks_num c (cs ++ t) t (.int v) hs hw hl (by simp)
+
+theorem replaceChar_id (a : Nat) (b s : Str) (h : a ∉ s) : replaceChar a b s = s := by
+  induction s with
+  | nil => rfl
+  | cons c cs ih =>
+    have hc : ¬ c = a := fun e => h (by simp [e])
+    have := ih (fun hm => h (by simp [hm]))
+    simp only [replaceChar, List.flatMap_cons, hc, if_false] at this ⊢
+    rw [this]; rfl
+
+theorem replaceChar_append (a : Nat) (b s t : Str) :
+    replaceChar a b (s ++ t) = replaceChar a b s ++ replaceChar a b t := by
+  simp [replaceChar]
+
+theorem digits_no (d : Str) (h : d.all isDigit = true) (x : Nat) (hx : isDigit x = false) : x ∉ d := by
+  intro hm
+  have := (List.all_eq_true.mp h) x hm
+  rw [hx] at this; exact absurd this (by simp)
+
+/-- the text tomof() writes for a real value: the repr with a fraction forced in -/
+def withFrac (g : ReprText) : ReprText := match g.frac with | some _ => g | none => { g with frac := some [48] }
+
+theorem withFrac_ok (g : ReprText) (h : g.ok = true) : (withFrac g).ok = true := by
+  unfold withFrac
+  cases hf : g.frac with
+  | some f => simpa [hf] using h
+  | none =>
+    simp only [ReprText.ok, hf] at h ⊢
+    simp only [Bool.and_eq_true] at h ⊢
+    refine ⟨⟨⟨h.1.1.1, by decide⟩, h.1.2⟩, by simp⟩
+
+theorem realLit_render (g : ReprText) (h : g.ok = true) : realLit g.render = (withFrac g).render := by
+  unfold ReprText.ok at h
+  simp only [Bool.and_eq_true] at h
+  obtain ⟨⟨⟨⟨_, hip⟩, hfrac⟩, hexp⟩, hfe⟩ := h
+  unfold withFrac
+  cases hf : g.frac with
+  | some f =>
+    have : g.render.contains 46 = true := by simp [ReprText.render, hf]
+    have hm : (46 : Nat) ∈ g.render := by simpa using this
+    simp only [realLit, this, not_true_eq_false, and_false, if_false]
+  | none =>
+    cases he : g.exp with
+    | none => simp [hf, he] at hfe
+    | some e =>
+      simp only [he] at hexp
+      simp only [Bool.and_eq_true] at hexp
+      have n46ip : (46 : Nat) ∉ g.ip := digits_no _ hip 46 (by decide)
+      have n46e : (46 : Nat) ∉ e.2 := digits_no _ hexp.2 46 (by decide)
+      have n101ip : (101 : Nat) ∉ g.ip := digits_no _ hip 101 (by decide)
+      have n101e : (101 : Nat) ∉ e.2 := digits_no _ hexp.2 101 (by decide)
+      have hrender : g.render = (if g.neg then [45] else []) ++ g.ip ++ (101 :: (if e.1 then 45 else 43) :: e.2) := by
+        simp [ReprText.render, hf, he]
+      have hc101 : g.render.contains 101 = true := by rw [hrender]; simp
+      have hc46 : g.render.contains 46 = false := by
+        rw [hrender]
+        simp only [List.contains_eq_mem, List.mem_append, List.mem_cons, decide_eq_false_iff_not, not_or]
+        refine ⟨⟨?_, n46ip⟩, by decide, ?_, n46e⟩
+        · cases g.neg <;> simp
+        · cases e.1 <;> simp
+      simp only [realLit, hc101, hc46, Bool.false_eq_true, not_false_eq_true, and_self, if_true]
+      rw [hrender, replaceChar_append, replaceChar_append]
+      have h1 : replaceChar 101 [46, 48, 101] (if g.neg then [45] else []) = (if g.neg then [45] else []) := by
+        apply replaceChar_id; cases g.neg <;> simp
+      have h2 := replaceChar_id 101 [46, 48, 101] g.ip n101ip
+      have h3 : replaceChar 101 [46, 48, 101] (101 :: (if e.1 then 45 else 43) :: e.2) =
+          46 :: 48 :: 101 :: (if e.1 then 45 else 43) :: e.2 := by
+        have := replaceChar_id 101 [46, 48, 101] ((if e.1 then 45 else 43) :: e.2)
+          (by cases e.1 <;> simp [n101e])
+        simp only [replaceChar, List.flatMap_cons, if_true] at this ⊢
+        rw [this]; rfl
+      rw [h1, h2, h3]
+      simp [ReprText.render, hf, he]
+
+/-- a repr text with a fraction, followed by a separator, is one floatValue token -/
+theorem lexFloat_render (g : ReprText) (h : g.ok = true) (f : Str) (hf : g.frac = some f) (t : Str)
+    (ht : Closed t) : lexFloat (g.render ++ t) = some (g.render, t) := by
+  unfold ReprText.ok at h
+  simp only [Bool.and_eq_true, hf] at h
+  obtain ⟨⟨⟨⟨hipne, hip⟩, hfne, hfd⟩, hexp⟩, _⟩ := h
+  have hipne' : g.ip ≠ [] := by intro e; simp [e] at hipne
+  have hfne' : f ≠ [] := by intro e; simp [e] at hfne
+  have hdelim : ∀ x r, t = x :: r → isDigit x = false := by
+    intro x r e; subst e; exact sep_not_digit x ht
+  -- the part after the sign
+  obtain ⟨i0, irest, hi0⟩ : ∃ i0 irest, g.ip = i0 :: irest := by
+    cases hx : g.ip with
+    | nil => exact absurd hx hipne'
+    | cons a b => exact ⟨a, b, rfl⟩
+  have hi0d : isDigit i0 = true := by rw [hi0] at hip; simp at hip; exact hip.1
+  have hi0s : i0 ≠ 43 ∧ i0 ≠ 45 := by
+    revert hi0d; unfold isDigit; simp only [Bool.and_eq_true, decide_eq_true_eq]; intro h; omega
+  cases he : g.exp with
+  | none =>
+    have hr : g.render ++ t = (if g.neg then [45] else []) ++ (g.ip ++ 46 :: (f ++ t)) := by
+      simp [ReprText.render, hf, he]
+    have hsg : optSign (g.render ++ t) = ((if g.neg then [45] else []), g.ip ++ 46 :: (f ++ t)) := by
+      rw [hr]; cases g.neg
+      · simp only [Bool.false_eq_true, if_false, List.nil_append, hi0, List.cons_append]
+        unfold optSign; split <;> simp_all
+      · simp [optSign]
+    have hsp1 : spanP isDigit (g.ip ++ 46 :: (f ++ t)) = (g.ip, 46 :: (f ++ t)) :=
+      spanP_append isDigit g.ip _ hip (by intro x r e; simp at e; rw [← e.1]; decide)
+    have hsp2 : spanP isDigit (f ++ t) = (f, t) := spanP_append isDigit f t hfd hdelim
+    unfold lexFloat
+    simp only [hsg, hsp1, hsp2, hfne', if_false]
+    cases t with
+    | nil => simp [ReprText.render, hf, he]
+    | cons x r =>
+      have hx : isSepChar x = true := ht
+      have hne : ¬ (x = 101 ∨ x = 69) := by
+        revert hx; unfold isSepChar isWs isPunct; simp only [Bool.or_eq_true, beq_iff_eq]; intro h; omega
+      simp [hne, ReprText.render, hf, he]
+  | some e =>
+    simp only [he, Bool.and_eq_true] at hexp
+    have hene : e.2 ≠ [] := by intro x; simp [x] at hexp
+    have hr : g.render ++ t = (if g.neg then [45] else []) ++
+        (g.ip ++ 46 :: (f ++ 101 :: (if e.1 then 45 else 43) :: (e.2 ++ t))) := by
+      simp [ReprText.render, hf, he]
+    have hsg : optSign (g.render ++ t) = ((if g.neg then [45] else []),
+        g.ip ++ 46 :: (f ++ 101 :: (if e.1 then 45 else 43) :: (e.2 ++ t))) := by
+      rw [hr]; cases g.neg
+      · simp only [Bool.false_eq_true, if_false, List.nil_append, hi0, List.cons_append]
+        unfold optSign; split <;> simp_all
+      · simp [optSign]
+    have hsp1 : spanP isDigit (g.ip ++ 46 :: (f ++ 101 :: (if e.1 then 45 else 43) :: (e.2 ++ t))) =
+        (g.ip, 46 :: (f ++ 101 :: (if e.1 then 45 else 43) :: (e.2 ++ t))) :=
+      spanP_append isDigit g.ip _ hip (by intro x r e; simp at e; rw [← e.1]; decide)
+    have hsp2 : spanP isDigit (f ++ 101 :: (if e.1 then 45 else 43) :: (e.2 ++ t)) =
+        (f, 101 :: (if e.1 then 45 else 43) :: (e.2 ++ t)) :=
+      spanP_append isDigit f _ hfd (by intro x r e; simp at e; rw [← e.1]; decide)
+    have hsp3 : spanP isDigit (e.2 ++ t) = (e.2, t) := spanP_append isDigit e.2 t hexp.2 hdelim
+    have hos : optSign ((if e.1 then 45 else 43) :: (e.2 ++ t)) = ([if e.1 then 45 else 43], e.2 ++ t) := by
+      cases e.1 <;> simp [optSign]
+    unfold lexFloat
+    simp only [hsg, hsp1, hsp2, hfne', if_false, true_or, if_true, hos, hsp3, hene]
+    simp [ReprText.render, hf, he]
+
+theorem render_cons (g : ReprText) (h : g.ok = true) : ∃ c cs, g.render = c :: cs ∧
+    (isDigit c || c == 43 || c == 45 || c == 46) = true ∧ isWs c = false := by
+  unfold ReprText.ok at h
+  simp only [Bool.and_eq_true] at h
+  have hip := h.1.1.1
+  cases hx : g.ip with
+  | nil => simp [hx] at hip
+  | cons a b =>
+    rw [hx] at hip
+    simp only [List.isEmpty_cons, Bool.not_false, List.all_cons, Bool.and_eq_true, true_and] at hip
+    cases hn : g.neg
+    · refine ⟨a, _, by simp [ReprText.render, hn, hx]; rfl, by simp [hip.1], ?_⟩
+      have := hip.1; revert this; unfold isDigit isWs
+      simp only [Bool.and_eq_true, decide_eq_true_eq, Bool.or_eq_false_iff, beq_eq_false_iff_ne]
+      intro h; omega
+    · exact ⟨45, _, by simp [ReprText.render, hn]; rfl, by decide, by decide⟩
+
+theorem lexToks_real (g : ReprText) (h : g.ok = true) (t : Str) (ht : Closed t) :
+    lexToks (realLit g.render ++ t) = (lexToks t).map (Tok.num (.float (realLit g.render)) :: ·) := by
+  rw [realLit_render g h]
+  have hok := withFrac_ok g h
+  obtain ⟨f, hf⟩ : ∃ f, (withFrac g).frac = some f := by
+    unfold withFrac; cases hx : g.frac with
+    | some f => exact ⟨f, by simp [hx]⟩
+    | none => exact ⟨[48], by simp⟩
+  have hlf := lexFloat_render (withFrac g) hok f hf t ht
+  obtain ⟨c, cs, e, hs, hw⟩ := render_cons (withFrac g) hok
+  have hln : lexNumber ((withFrac g).render ++ t) = some (.float (withFrac g).render, t) := by
+    unfold lexNumber; rw [hlf]
+  rw [e] at hln ⊢
+  exact lexToks_num c (cs ++ t) t _ hs hw hln (by simp)
+
 end Pywbem.Lemmas.MofTok
